@@ -14,7 +14,8 @@ From Coq Require Import String.
 From Coq Require Import List Arith ZArith.
 Import ListNotations.
 From YP Require Import Base.Str Term.Term Unify.Unify Lang.Ast Comp.IR Comp.CompileBody Comp.CompileClause Sem.Res Sem.RefSem Sem.IRSem Sem.ExecMono
-  Sem.Machine Sem.RunSem Sem.ClauseSem Sem.ProgramCorrect Sem.Native Sem.NativeThms Sem.NativeFacts Sem.NativeSource Sem.NativeExc Engine.RunBoundedM Engine.NativeMono.
+  Sem.Machine Sem.RunSem Sem.ClauseSem Sem.ProgramCorrect Sem.Native Sem.NativeThms Sem.NativeFacts Sem.NativeSource Sem.NativeExc Engine.RunBoundedM Engine.NativeMono
+  Unify.Bounded Sem.Fresh Sem.RenameSim Sem.NativeRename.
 
 (* ---- sem_extensional: the answers of a body / of emitted code / of a whole engine depend on a predicate only through
         its answer function (no functional extensionality axiom) *)
@@ -79,7 +80,7 @@ Print Assumptions C20_subset_interchangeable.
         explicit); P = rules ++ their facts is compiled as a whole.  Every query has the same answers against
         "compiled rules + Python predicates" and against "compiled P", at every depth, next to any dynamic facts dynl *)
 Theorem C20_program_with_python_predicates : forall rules specs dynl ir irf,
-  compile_program rules = Some ir -> compile_program (rules ++ py_clauses specs) = Some irf ->
+  compile_program rules = Some ir -> compile_program (rules ++ py_clauses specs)%list = Some irf ->
   good_program rules -> Forall spec_ok specs -> NoDup (map fst specs) ->
   (forall c, In c rules -> lookup_fix specs (c_name c) (length (c_args c)) = None) ->
   forall n name args s,
@@ -113,7 +114,7 @@ Print Assumptions C20_program_with_python_predicates_all_styles.
 (* ... hence, with C01 (ProgramCorrect.machine_computes_clause_semantics): rules compiled alone + Python predicates compute, for
    every query, exactly the clause-level reference semantics of the WHOLE Prolog program rules ++ facts *)
 Theorem C20_python_predicates_compute_clause_semantics : forall rules specs ir irf,
-  compile_program rules = Some ir -> compile_program (rules ++ py_clauses specs) = Some irf ->
+  compile_program rules = Some ir -> compile_program (rules ++ py_clauses specs)%list = Some irf ->
   good_program rules -> Forall spec_ok specs -> NoDup (map fst specs) ->
   (forall c, In c rules -> lookup_fix specs (c_name c) (length (c_args c)) = None) ->
   (forall f, In f irf -> Resolve.reserved (fn_name f) = false) ->
@@ -273,3 +274,125 @@ Example C20_exception_nonvacuous :
   | None => False
   end.
 Proof. vm_compute. repeat split. Qed.
+
+(* ==== rows WITH VARIABLES: equal up to an injective renaming of the cells created during the query (Sem/NativeRename.v;
+        relation rel_st / rel_val / ans_rel / call_rel / same_answer of Sem/RenameSim.v).
+   row_of_src row   the row of the Python predicate for the source row: its variables, numbered by first occurrence, become
+                    fresh cells at every use
+   noalias row      no argument of the row is a plain variable that occurs once among the top-level arguments (the compiler
+                    does not create a cell for such a variable but names the goal argument: see the refuted statement) *)
+
+(* the row loop - stored facts, a Python predicate - from related states with related arguments gives related answers *)
+Theorem C20_rows_related : forall rows, Forall frow_ok rows -> forall p sA sR argsA argsR,
+  rel_st p sA sR -> Forall2 (rel_val p sA sR) argsA argsR ->
+  Forall2 (ans_rel p sA sR) (fst (match_rows rows argsA sA)) (fst (match_rows rows argsR sR)) /\
+  snd (match_rows rows argsA sA) = snd (match_rows rows argsR sR).
+Proof. exact match_rows_rel. Qed.
+Print Assumptions C20_rows_related.
+
+(* native_equals_compiled_facts for rows with variables: the generator function compiled from name(row_1). ... name(row_n).
+   and the Python predicate over the same rows, called from related states with related arguments, whatever the calls mean:
+   same number of answers, same order, same end, k-th answers related by a renaming of the cells the call created *)
+Theorem C20_native_equals_compiled_facts_rel : forall call name rows vals cnt code cnt' p sA sR argsA argsR,
+  compile_clauses (map (fact_clause name) rows) cnt = Some (code, cnt') ->
+  Forall (fun row => noalias row /\ length row = length argsA) rows ->
+  rel_st p sA sR -> Forall2 (rel_val p sA sR) argsA argsR ->
+  let rN := drop (native_rows (map row_of_src rows) vals argsA sA) in
+  let rC := (let '(ys, k) := run_function (iter call) assign code (bind_args 0 argsR, sR) in
+             (map snd ys, match k with CErr => true | _ => false end)) in
+  Forall2 (ans_rel p sA sR) (fst rN) (fst rC) /\ snd rN = snd rC.
+Proof. exact native_equals_compiled_facts_rel. Qed.
+Print Assumptions C20_native_equals_compiled_facts_rel.
+
+(* ... from the same state with the same arguments: answers equal up to an injective renaming that fixes the cells of
+   the caller (RenameSim.same_answer) *)
+Theorem C20_native_equals_compiled_facts_renaming : forall call name rows vals cnt code cnt' args s,
+  compile_clauses (map (fact_clause name) rows) cnt = Some (code, cnt') ->
+  Forall (fun row => noalias row /\ length row = length args) rows ->
+  wf (sto s) -> inv s -> Forall (bounded (nxt s)) args ->
+  let rN := drop (native_rows (map row_of_src rows) vals args s) in
+  let rC := (let '(ys, k) := run_function (iter call) assign code (bind_args 0 args, s) in
+             (map snd ys, match k with CErr => true | _ => false end)) in
+  Forall2 (same_answer s) (fst rN) (fst rC) /\ snd rN = snd rC.
+Proof. exact native_equals_compiled_facts_renaming. Qed.
+Print Assumptions C20_native_equals_compiled_facts_renaming.
+
+(* ground rows are the special case (the exact statement above) *)
+Theorem C20_ground_rows_special_case : forall row, ground_row row = true -> noalias row /\ row_of_src row = row_of row.
+Proof. exact (fun row G => conj (ground_noalias row G) (row_of_src_ground row G)). Qed.
+Print Assumptions C20_ground_rows_special_case.
+
+(* REFUTED for rows with an aliased argument, already for p(X). called as p(V), V unbound: the compiled code binds nothing
+   (V_X = arg1), the Python predicate's unify(arg, X') binds V to the row's fresh variable X'.  Neither answer is the other's
+   image under a renaming that fixes the caller's cells (the answers are variants of each other: V unbound vs V bound to an
+   unbound fresh variable - the same after canonical renaming of unbound variables, which is what the check compares). *)
+Theorem C20_native_equals_compiled_facts_same_answer_refuted :
+  compile_clauses (map (fact_clause (s_ "p")) cx_rows) 0 = Some (cx_code, 0) /\
+  wf (sto cx_s) /\ inv cx_s /\ Forall (bounded (nxt cx_s)) [TVar 0] /\
+  drop (native_rows (map row_of_src cx_rows) [] [TVar 0] cx_s) = ([cx_native], false) /\
+  (let '(ys, k) := run_function (iter cx_call) assign cx_code (bind_args 0 [TVar 0], cx_s) in
+   (map snd ys, match k with CErr => true | _ => false end)) = ([cx_compiled], false) /\
+  ~ same_answer cx_s cx_native cx_compiled /\ ~ same_answer cx_s cx_compiled cx_native.
+Proof. exact native_equals_compiled_facts_same_answer_refuted. Qed.
+Print Assumptions C20_native_equals_compiled_facts_same_answer_refuted.
+
+(* subset_interchangeable for rows with variables, through programs: rules compiled alone + Python predicates over the rows
+   of specs vs the compiled program rules ++ facts are in the relation call_rel at every depth - related calls (related
+   states, related arguments) have related answers - in any context (conjunction, cut, if-then-else, negation, call/N,
+   once/1, findall/3), next to any dynamic facts *)
+Theorem C20_subset_interchangeable_rel : forall rules specs dynl ir irf,
+  compile_program rules = Some ir -> compile_program (rules ++ py_clauses specs)%list = Some irf ->
+  good_program rules -> Forall spec_ok_src specs -> NoDup (map fst specs) -> dyn_ok dynl ->
+  (forall c, In c rules -> lookup_fix specs (c_name c) (length (c_args c)) = None) ->
+  forall n, call_rel (nquery n (mk_world ir (py_table_src specs) [] dynl)) (nquery n (mk_world irf [] [] dynl)).
+Proof. exact program_with_python_predicates_rel. Qed.
+Print Assumptions C20_subset_interchangeable_rel.
+
+(* ... every query from every well-formed state: same number of answers, same order, same end, the k-th answers equal up
+   to an injective renaming of the cells created during the query *)
+Theorem C20_subset_interchangeable_renaming : forall rules specs dynl ir irf,
+  compile_program rules = Some ir -> compile_program (rules ++ py_clauses specs)%list = Some irf ->
+  good_program rules -> Forall spec_ok_src specs -> NoDup (map fst specs) -> dyn_ok dynl ->
+  (forall c, In c rules -> lookup_fix specs (c_name c) (length (c_args c)) = None) ->
+  forall n name args s, wf (sto s) -> inv s -> Forall (bounded (nxt s)) args ->
+    Forall2 (same_answer s) (fst (nquery n (mk_world ir (py_table_src specs) [] dynl) name args s))
+                            (fst (nquery n (mk_world irf [] [] dynl) name args s)) /\
+    snd (nquery n (mk_world ir (py_table_src specs) [] dynl) name args s) =
+    snd (nquery n (mk_world irf [] [] dynl) name args s).
+Proof. exact program_with_python_predicates_renaming. Qed.
+Print Assumptions C20_subset_interchangeable_renaming.
+
+(* non-vacuity: t(A,B,C) :- v(A), w(B,C).  l(L) :- findall(X, v(X), L).  with v/1 = {f(X); g(X,Y,X)} and
+   w/2 = {(Z,Z); (h(U), k(U,a))}: the hypotheses hold, and the two engines' answers really differ in their cells *)
+Definition V_ (x : string) := SVar (d x).
+Definition rn_rules : program :=
+  [ {| c_name := d "t"; c_args := [V_ "A"; V_ "B"; V_ "C"]; c_body := BAnd (BCall (d "v") [V_ "A"]) (BCall (d "w") [V_ "B"; V_ "C"]) |};
+    {| c_name := d "l"; c_args := [V_ "L"]; c_body := BCall (d "findall") [V_ "X"; SFun (d "v") [V_ "X"]; V_ "L"] |} ].
+Definition v_rows := [[SFun (d "f") [V_ "X"]]; [SFun (d "g") [V_ "X"; V_ "Y"; V_ "X"]]].
+Definition w_rows := [[V_ "Z"; V_ "Z"]; [SFun (d "h") [V_ "U"]; SFun (d "k") [V_ "U"; A "a"]]].
+Definition rn_specs : list pyspec := [ (d "v", 1, (v_rows, [false; true])); (d "w", 2, (w_rows, [true; true])) ].
+
+Example C20_renaming_nonvacuous :
+  Forall spec_ok_src rn_specs /\ NoDup (map fst rn_specs) /\
+  (forall c, In c rn_rules -> lookup_fix rn_specs (c_name c) (length (c_args c)) = None) /\
+  match compile_program rn_rules, compile_program (rn_rules ++ py_clauses rn_specs)%list with
+  | Some ir, Some irf =>
+      let ans := fun nq (r : list st * bool) => (map (answer_of nq) (fst r), snd r) in
+      let f x := TFun (d "f") [x] in let g x y := TFun (d "g") [x; y; x] in
+      let h x := TFun (d "h") [x] in let k x := TFun (d "k") [x; TAtom (d "a")] in
+      ans 3 (nquery 6 (mk_world ir (py_table_src rn_specs) [] []) (d "t") [TVar 0; TVar 1; TVar 2] (st0 3)) =
+        ([[f (TVar 3); TVar 4; TVar 4]; [f (TVar 3); h (TVar 4); k (TVar 4)];
+          [g (TVar 3) (TVar 4); TVar 5; TVar 5]; [g (TVar 3) (TVar 4); h (TVar 5); k (TVar 5)]], false) /\
+      ans 3 (nquery 6 (mk_world irf [] [] []) (d "t") [TVar 0; TVar 1; TVar 2] (st0 3)) =
+        ([[f (TVar 3); TVar 4; TVar 4]; [f (TVar 3); h (TVar 5); k (TVar 5)];
+          [g (TVar 4) (TVar 5); TVar 6; TVar 6]; [g (TVar 4) (TVar 5); h (TVar 7); k (TVar 7)]], false) /\
+      ans 1 (nquery 6 (mk_world ir (py_table_src rn_specs) [] []) (d "l") [TVar 0] (st0 1)) =
+        ([[mk_list [f (TVar 2); g (TVar 3) (TVar 4)]]], false) /\
+      ans 1 (nquery 6 (mk_world irf [] [] []) (d "l") [TVar 0] (st0 1)) =
+        ([[mk_list [f (TVar 2); g (TVar 4) (TVar 5)]]], false)
+  | _, _ => False
+  end.
+Proof.
+  split; [repeat constructor; discriminate|]. split; [repeat constructor; cbn; intuition discriminate|].
+  split; [intros c [<-|[<-|[]]]; reflexivity|]. vm_compute. repeat split.
+Qed.
